@@ -218,15 +218,18 @@ def run(ctx, rep):
     if ok:
         dv = sl.operand(pc, wr[0].args[0])
         pv = strip(sl.operand(pc, wr[0].args[1]))
-        norm = any(x[0] == 'closure' and any(c.name == PD + 'normalize_package_descriptor' for c in prog.fns[x[1]].calls) for x in walk(dv) if x[1] in prog.fns)
-        rd = any(x[0] == 'call' and x[1] == 'libcnb_common::toml_file::read_toml_file' for x in walk(dv))
+        # normal form (value.mk_unwrap): the same whether the code says `read(..).and_then(|d| normalize(d, ..))?` or
+        # `let d = read(..)?; normalize(d, ..)?`
         path_ok = pv[0] == 'call' and pv[1] == 'std::path::Path::join' and strip(pv[2][0])[0] == 'param' and strip(pv[2][0])[2] == 1 and strip(pv[2][1]) == ('const', 'package.toml')
-        ok = norm and rd and path_ok and dv[0] == 'unwrap' and verdict(result_fates(prog, pc, wr[0])) == 'ok'
-        ncl = [g for g in prog.closures_of(pc) if any(c.name == PD + 'normalize_package_descriptor' for c in g.calls)]
-        if ok and ncl:
-            nc = [c for c in ncl[0].calls if c.name == PD + 'normalize_package_descriptor'][0]
-            a = [strip(sl.operand(ncl[0], x)) for x in nc.args]
+        nv = strip(dv)
+        ok = False
+        if dv[0] == 'unwrap' and nv[0] == 'call' and nv[1] == PD + 'normalize_package_descriptor' and len(nv[2]) == 3 and path_ok:
+            a = [strip(x) for x in nv[2]]
+            src_path = lambda v: v[0] == 'call' and v[1] == 'std::path::Path::join' and strip(v[2][0])[0] == 'param' and strip(v[2][0])[2] == 0 \
+                and strip(v[2][1]) == ('const', 'package.toml')
+            rd = a[0][0] == 'call' and a[0][1] == 'libcnb_common::toml_file::read_toml_file' and src_path(strip(a[0][2][0])) and nv[2][0][0] == 'unwrap'
             # (descriptor read from <src>/package.toml, that same path, the id->path map parameter)
-            ok = a[0][0] == 'param' and any(x[0] == 'const' and x[1] == 'package.toml' for x in walk(a[1])) and a[2][0] == 'param' and a[2][1] == pc.path and a[2][2] == 2
+            ok = rd and src_path(a[1]) and a[2][0] == 'param' and a[2][1] == pc.path and a[2][2] == 2 \
+                and verdict(result_fates(prog, pc, wr[0])) == 'ok'
     rep.check(ok, 'R6', 'written', w(pc), 'write_toml_file(normalize(read(<src>/package.toml), that path, id->path map)?, <dest>/package.toml)?',
               'the composite package.toml written is not the normalised source descriptor')
